@@ -32,6 +32,73 @@ func guardsAt(b *ssa.BasicBlock) []Guard {
 		tOK := len(t.Preds) == 1 && t.Dominates(b)
 		fOK := len(f.Preds) == 1 && f.Dominates(b)
 		if tOK && !fOK {
+			out = append(out, expandGuard(Guard{iff.Cond, true, iff}, 0)...)
+		} else if fOK && !tOK {
+			out = append(out, expandGuard(Guard{iff.Cond, false, iff}, 0)...)
+		}
+	}
+	return out
+}
+
+// expandGuard decomposes short-circuit conditions that go/ssa materialises as
+// a φ of booleans (`a && b` used as a value, e.g. a switch-true case):
+// φ[false…, B] known true  ⇒ B is true (and so are the conditions on B's edge);
+// φ[true…,  B] known false ⇒ B is false.
+func expandGuard(g Guard, depth int) []Guard {
+	out := []Guard{g}
+	if depth > 4 {
+		return out
+	}
+	switch c := g.Cond.(type) {
+	case *ssa.UnOp:
+		if c.Op.String() == "!" {
+			out = append(out, expandGuard(Guard{c.X, !g.Val, g.At}, depth+1)...)
+		}
+	case *ssa.Phi:
+		var nonConst []int
+		allConst := true
+		for i, e := range c.Edges {
+			k, isK := e.(*ssa.Const)
+			if !isK || k.Value == nil {
+				nonConst = append(nonConst, i)
+				continue
+			}
+			if (k.Value.String() == "true") == g.Val {
+				allConst = false // a constant edge already yields the known value: nothing follows
+			}
+		}
+		if allConst && len(nonConst) == 1 {
+			i := nonConst[0]
+			out = append(out, expandGuard(Guard{c.Edges[i], g.Val, g.At}, depth+1)...)
+			// the φ's value came through that edge: its edge conditions hold too
+			for _, eg := range edgeGuardsRaw(c.Block().Preds[i], c.Block()) {
+				out = append(out, eg)
+			}
+		}
+	}
+	return out
+}
+
+func edgeGuardsRaw(from, to *ssa.BasicBlock) []Guard {
+	var out []Guard
+	for a := from; a != nil; a = a.Idom() {
+		if len(a.Instrs) == 0 {
+			continue
+		}
+		iff, ok := a.Instrs[len(a.Instrs)-1].(*ssa.If)
+		if !ok {
+			continue
+		}
+		t, f := a.Succs[0], a.Succs[1]
+		if t == f {
+			continue
+		}
+		if a == from {
+			continue
+		}
+		tOK := len(t.Preds) == 1 && t.Dominates(from)
+		fOK := len(f.Preds) == 1 && f.Dominates(from)
+		if tOK && !fOK {
 			out = append(out, Guard{iff.Cond, true, iff})
 		} else if fOK && !tOK {
 			out = append(out, Guard{iff.Cond, false, iff})
@@ -46,9 +113,9 @@ func edgeGuards(from, to *ssa.BasicBlock) []Guard {
 	if len(from.Instrs) > 0 {
 		if iff, ok := from.Instrs[len(from.Instrs)-1].(*ssa.If); ok && from.Succs[0] != from.Succs[1] {
 			if from.Succs[0] == to {
-				out = append(out, Guard{iff.Cond, true, iff})
+				out = append(out, expandGuard(Guard{iff.Cond, true, iff}, 0)...)
 			} else if from.Succs[1] == to {
-				out = append(out, Guard{iff.Cond, false, iff})
+				out = append(out, expandGuard(Guard{iff.Cond, false, iff}, 0)...)
 			}
 		}
 	}
